@@ -68,6 +68,27 @@ def identities(ck, c):
                 hL, hR = bz.halve_bezier(p)
                 if list(hL) != eL or list(hR) != eR:
                     bad('halve_bezier', (eL, eR), (hL, hR))
+            # the same control points as plain Python ints, floats, complex numbers and numpy scalars (the helpers take "any numeric sequence"): float arithmetic is exact
+            # here when the parameter is dyadic and the degree small; otherwise a 1e-12 relative tolerance
+            for spell, conv in (('int', int), ('float', float), ('complex', complex), ('numpy.int64', numpy.int64), ('numpy.float64', numpy.float64)):
+                ps = [conv(x) for x in P]
+                Ls, Rs = bz.split_bezier(ps, float(t))
+                tol_ = 1e-12 * (max(abs(x) for x in P) + 1)
+                if len(Ls) != len(eL) or len(Rs) != len(eR) or any(not (abs(complex(g_) - complex(float(e_))) <= tol_) for g_, e_ in zip(list(Ls) + list(Rs), eL + eR)):
+                    bad('split_bezier(%s control points)' % spell, (eL, eR), (list(Ls), list(Rs)))
+                    break
+                if ps != [conv(x) for x in P]:
+                    bad('split_bezier(%s control points) changed its argument' % spell, P, ps)
+                    break
+                if 1 <= n <= 3:
+                    co_ = list(bz.bezier2polynomial(ps))
+                    if any(not (abs(complex(g_) - complex(float(F(e_)))) <= tol_ * 8) for g_, e_ in zip(co_, c['coeffs'])):
+                        bad('bezier2polynomial(%s control points)' % spell, c['coeffs'], co_)
+                        break
+                    back_ = list(bz.polynomial2bezier([conv(x) for x in c['coeffs']]))
+                    if len(back_) != len(P) or any(not (abs(complex(g_) - complex(e_)) <= tol_ * 8) for g_, e_ in zip(back_, P)):
+                        bad('polynomial2bezier(%s coefficients)' % spell, P, back_)
+                        break
     except Exception as e:      # noqa
         bad('raises-' + type(e).__name__, 'a value', repr(e))
 
